@@ -2,6 +2,8 @@
    Coq model, prints one canonical result line per case.  It only parses and
    prints; all behaviour comes from Model (extracted). *)
 open BinNums
+(* the extracted Coq [String] module must not capture the s.[i] syntax *)
+module String = Stdlib.String
 
 let rec pos_of_int (i : int) : positive =
   if i = 1 then Coq_xH
@@ -147,7 +149,7 @@ let hex_of_n (x : coq_N) : string =
       let rec go = function
         | a :: b :: c :: d :: r ->
             let v = (if a then 8 else 0) + (if b then 4 else 0) + (if c then 2 else 0) + (if d then 1 else 0) in
-            Buffer.add_char buf "0123456789abcdef".[v]; go r
+            Buffer.add_char buf (Stdlib.String.get "0123456789abcdef" v); go r
         | _ -> () in
       go bl; Buffer.contents buf
 
@@ -519,6 +521,54 @@ let rx (rest : string) : string =
       Buffer.add_string buf ("# " ^ fin); Buffer.contents buf
   | [] -> failwith "rx: empty"
 
+(* ---------- comp: list-encoded composite types (derive macros + DescribedAccess) ---------- *)
+let comp (rest : string) : string =
+  let ws = words rest in
+  let split_c s = if s = "-" then [] else Stdlib.String.split_on_char ',' s in
+  let hexs (b : coq_N list) : string = Stdlib.String.concat "" (Stdlib.List.map (fun x -> Printf.sprintf "%02x" (int_of_n x)) b) in
+  let value_of_hex (h : string) : Value.value =
+    let bs = bytes_of_hex h in
+    match Dec.from_slice (nat_of_int (Stdlib.List.length bs + 1)) bs with
+    | Bytes.Ok (v, []) -> v
+    | _ -> failwith ("comp: field does not decode in the model: " ^ h) in
+  let kinds = let k = kv ws "kinds" in if k = "-" then "" else k in
+  let dflts = split_c (kv ws "dflts") in
+  let fks = Stdlib.List.mapi (fun i c ->
+      match c with
+      | 'O' -> Composite.FOpt
+      | 'M' -> Composite.FMand
+      | 'U' -> Composite.FMulti
+      | 'D' -> Composite.FDflt (value_of_hex (Stdlib.List.nth dflts i))
+      | _ -> failwith "comp: kind") (Stdlib.List.init (Stdlib.String.length kinds) (Stdlib.String.get kinds)) in
+  let s_case = { Composite.s_name = bytes_of_hex (kv ws "name"); Composite.s_code = n_of_string (kv ws "code"); Composite.s_fields = fks } in
+  (* the schema the theorems are about is the specification's; what the case line says the code has
+     (name, kinds, defaults from Default::default()) must be that schema *)
+  let s = match Composite.dispatch CompositeSpec.spec_schemas (Value.DCode s_case.Composite.s_code) with
+    | Some sp -> sp
+    | None -> failwith "comp: no such composite in the specification table" in
+  let names_case = Stdlib.List.map (fun w -> Stdlib.List.init (Stdlib.String.length w) (fun i -> n_of_int (Char.code (Stdlib.String.get w i)))) (split_c (kv ws "names")) in
+  if s <> s_case then "SCHEMA-MISMATCH the type's descriptor, field kinds or defaults differ from the specification table"
+  else if CompositeSpec.spec_field_names s.Composite.s_code <> Some names_case then "SCHEMA-MISMATCH the type's field names or their order differ from the specification table" else
+  let vs = Stdlib.List.map value_of_hex (split_c (kv ws "fields")) in
+  let show_fields (fvs : Value.value list) : string =
+    if fvs = [] then "-" else
+    Stdlib.String.concat "," (Stdlib.List.map (fun v -> match Enc.enc_bytes v with Some b -> hexs b | None -> "ENCERR") fvs) in
+  let dec (bs : coq_N list) : string =
+    match Composite.dec_composite (nat_of_int (Stdlib.List.length bs + 1)) s bs with
+    | Bytes.Ok (fvs, _) -> show_fields fvs
+    | Bytes.Err _ -> "err"
+    | Bytes.Panic -> "PANIC"
+    | Bytes.OutOfFuel -> "OUTOFFUEL" in
+  let rec last2 = function [a; b] -> (a, b) | _ :: r -> last2 r | _ -> failwith "comp: form" in
+  let (form, hx) = last2 ws in
+  match form with
+  | "canon" ->
+      (match Composite.enc_composite Enc.Plain s vs with
+       | Some b -> "enc=" ^ hexs b ^ " dec=" ^ dec b
+       | None -> "enc=ERR")
+  | "var" -> "dec=" ^ dec (bytes_of_hex hx)
+  | _ -> failwith "comp: unknown form"
+
 (* ---------- lifem: session lifecycle (C13) ---------- *)
 let lifem (rest : string) : string =
   let evs = split_on rest ';' in
@@ -888,6 +938,7 @@ let dispatch (line : string) : string =
        | "xfer" -> frame_xfer rest
        | "other" -> frame_other rest
        | "ldf" -> frame_ldf rest
+       | "comp" -> comp rest
        | "enc" -> codec_enc rest
        | "dec" -> codec_dec rest
        | "spec" -> codec_spec rest
